@@ -3695,7 +3695,14 @@ class FuncS(ValueFunc):
                 )
             if zeroes and numeric and value.startswith("-"):
                 # the zeroes go between the sign and the digits
-                value = "-" + value[1:].rjust(width - 1, "0")
+                try:
+                    value = "-" + value[1:].rjust(width - 1, "0")
+                except (OverflowError, MemoryError):
+                    raise CklRuntimeError(
+                        ValueString("ERROR"),
+                        "Cannot pad to a width of " + str(width),
+                        pos,
+                    )
             while len(value) < width:
                 if leading:
                     value = " " + value
